@@ -19,6 +19,8 @@ def run(scratch, only=None, verbose=False):
     cases = [c for c in cases if not c["Id"].startswith("ios_long-acl")]
     if only:
         cases = [c for c in cases if re.search(only, c["Id"])]
+    if not cases:
+        return {"error": "self-test pattern %r selects no case" % only, "cases": 0, "mismatch": []}
     def native(c):
         d = c["Dir"]
         args = [drc] + c["Args"][1:-2] + [d + "/device", d + "/code/router"]
